@@ -45,7 +45,7 @@ func init() {
 	sort.Strings(c07PropNames)
 }
 
-var c07Entries = []string{"css", "selector", "selector", "validate", "validate", "validate", "mutate", "mutate", "mutate", "computed", "descriptors", "descriptors", "page", "color", "nth", "media", "svg", "svg", "svg", "svgattr", "svglist", "url", "htmlattr", "htmlattr"}
+var c07Entries = []string{"css", "selector", "selector", "validate", "validate", "validate", "areas", "mutate", "mutate", "mutate", "computed", "descriptors", "descriptors", "page", "color", "nth", "media", "svg", "svg", "svg", "svgattr", "svglist", "url", "htmlattr", "htmlattr"}
 
 var c07Pieces = regexp.MustCompile(`"[^"]*"|'[^']*'|[(),/]|[^\s(),/]+`)
 
@@ -96,6 +96,8 @@ func c07Gen(t *rapid.T, tier Tier) interface{} {
 		d := gen.GenValidDecl(t)
 		c.Aux = d.Name
 		c.Src = c07Mutate(t, d.Text(nil, false))
+	case "areas":
+		c.Src = c07AreasGen(t)
 	case "validate", "computed":
 		name := rapid.SampledFrom(c07PropNames).Draw(t, "prop")
 		if rapid.IntRange(0, 20).Draw(t, "custom") == 0 {
@@ -251,6 +253,28 @@ func c07Check(ci interface{}) Verdict {
 			labels = append(labels, "rejected")
 			nt = len(c.Src) > 2
 		}
+	case "areas":
+		// the rows are the pieces between the quotes (an empty or blank string is a row without cells)
+		var rows []string
+		for i, p := range strings.Split(c.Src, `"`) {
+			if i%2 == 1 {
+				rows = append(rows, p)
+			}
+		}
+		want := c07AreasValid(rows)
+		out := validation.PreprocessDeclarations("http://base/", parser.ParseDeclarationListString("grid-template-areas:"+c.Src, true, true))
+		got := len(out) > 0
+		if want {
+			labels = append(labels, "areas:valid")
+		}
+		if got != want {
+			sig := "areas:accepts-malformed"
+			if want {
+				sig = "areas:rejects-valid"
+			}
+			return Verdict{Sig: sig, Msg: fmt.Sprintf("grid-template-areas:%s is accepted=%v, the rows %q make a valid value: %v", c.Src, got, rows, want), Labels: labels}
+		}
+		nt = len(rows) > 1 || len(rows[0]) > 2
 	case "validate":
 		decls := parser.ParseDeclarationListString(c.Src, true, true)
 		out := validation.PreprocessDeclarations("http://base/", decls)
